@@ -160,7 +160,7 @@ def menu(m, n, seed, cap):
         if types[j] in A.KERN_LIKE:
             rows.append((f'clef{j}', [A.V(A.CLEFS[(n + j + seed) % len(A.CLEFS)], 'CLEF') if i == j else A.NULL_I for i in range(w)]))
     rows.append(('k', X.content_row(m, 'k', n + 3, seed)))
-    rows += X.split_rows(m, cap) + X.join_rows(m)
+    rows += X.split_rows(m, cap) + X.join_rows(m) + X.mixed_rows(m, cap)
     return rows
 
 
